@@ -26,8 +26,8 @@ func init() {
 			"with Go's standard library / math/big), ValidityPeriod against NotAfter-NotBefore; CT leg: families = one TBS with the CT poison and/or an SCT list (0-2 SCTs) inserted at every position " +
 			"of the extension list, all FingerprintNoCT equal and different from the serial+1 control; non-trivial = accepted certificate on which every applicable field was compared, or a CT family " +
 			"with >= 3 accepted members; distinct by hash of the DER bytes / of the family base",
-		MinNontrivial:         5000,
-		MinNontrivialThorough: 120000,
+		MinNontrivial:         8000,
+		MinNontrivialThorough: 250000,
 		Shards:                16,
 		GoMaxProcs:            2,
 		Assumptions: []string{
